@@ -455,12 +455,41 @@ def check_movie(ctx, case):
             ctx.count('rejected_ambiguous_bins')  # two bins with one time label: not a valid movie
             return
         kw['bins'] = bins
+    td_before = np.array(tds.time_descriptors['time'], copy=True)
+    m_before = np.array(tds.measurements, copy=True)
+    if not movie_pass(ctx, case, tds, kw, meas3, times, tkind, bins, n_t, first=True):
+        return
+    # the same TemporalDataset object is used again with the other binning mode: an earlier (binned) movie must have
+    # left the object as it was, and the later movie equals its own definition
+    if n_t >= 2 and rng.integers(2):
+        if not (np.array_equal(np.asarray(tds.time_descriptors['time']), td_before)
+                and np.array_equal(np.asarray(tds.measurements), m_before)
+                and set(tds.time_descriptors) == {'time'}):
+            ctx.fail('movie_vs_reference', dict(sig_of(case, movie=True), aspect='dataset_modified'),
+                     f'calc_rdm_movie(bins={bins is not None}) altered the TemporalDataset it was given: time descriptors '
+                     f'now {dict((k, np.asarray(v).tolist()) for k, v in tds.time_descriptors.items())}',
+                     witness(case, meas3=meas3, times=times, bins=bins))
+            return
+        kw2 = {k: v for k, v in kw.items() if k != 'bins'}
+        bins2 = None
+        if bins is None:
+            order = list(rng.permutation(n_t))
+            cut = int(rng.integers(1, n_t))
+            bins2 = [np.array(sorted(times[order[:cut]])), np.array(sorted(times[order[cut:]]))]
+            if abs(float(np.mean(bins2[0])) - float(np.mean(bins2[1]))) < 1e-9:
+                return
+            kw2['bins'] = bins2
+        movie_pass(ctx, case, tds, kw2, meas3, times, tkind, bins2, n_t, first=False)
+
+
+def movie_pass(ctx, case, tds, kw, meas3, times, tkind, bins, n_t, first):
+    use_bins = bins is not None
     sig = sig_of(case, movie=True, times=tkind, bins=use_bins, n_t='1' if n_t == 1 else '2+',
-                 one_channel=case['n_ch'] == 1)
-    data = lambda: witness(case, meas3=meas3, times=times, bins=bins)  # noqa: E731
+                 one_channel=case['n_ch'] == 1, reused_object=not first)
+    data = lambda: witness(case, meas3=meas3, times=times, bins=bins, reused_object=not first)  # noqa: E731
     ok, rd = ctx.guarded('movie_vs_reference', sig, calc_rdm_movie, tds, data=data, **kw)
     if not ok:
-        return
+        return False
     ctx.case('movie_vs_reference', sig, sample={'times': times, 'bins': bins, 'method': case['method']})
     c2 = dict(case, remove_mean=False)
     if bins is None:
@@ -472,21 +501,23 @@ def check_movie(ctx, case):
             frames.append((float(np.mean(times[sel])), meas3[:, :, sel].astype(float).mean(axis=2)))
     if rd.n_rdm != len(frames):
         ctx.fail('movie_vs_reference', sig, f'n_rdm {rd.n_rdm} != frames {len(frames)}', data())
-        return
+        return False
     tdesc = rd.rdm_descriptors.get('time')
     if tdesc is None or not close(np.asarray(tdesc, dtype=float), [f[0] for f in frames], 1e-12, 1e-12):
         ctx.fail('movie_vs_reference', dict(sig, aspect='time_descriptor'),
                  f'time rdm_descriptor {tdesc!r} != {[f[0] for f in frames]}', data())
-        return
+        return False
     for i, (t, m) in enumerate(frames):
         want = ref_of(c2, meas=m)
         if any(np.isnan(v) for v in want.values()):
             ctx.count('rejected_degenerate')
             continue
         if not compare_to_ref(ctx, 'movie_vs_reference', sig, rd, want, i_rdm=i, data=data):
-            return
+            return False
     if rd.dissimilarity_measure != case['method']:
         ctx.fail('movie_vs_reference', dict(sig, aspect='measure'), 'measure name', data())
+        return False
+    return True
 
 
 def check_repeat_calls(ctx, case):
